@@ -89,4 +89,82 @@ theorem parsed_fixed_point_partial_canon (bs : Bytes) (h : Header) (hu : unmarsh
   obtain ⟨b, hb, hub, _⟩ := parsed_fixed_point_partial bs h hu (headerOK_of_canon h ⟨hpt, hct, hc⟩) fits
   simp [passIsIdentity, hb, hub]
 
+/-! ## Member codec and `PbToGroups` (group-sync receive path) -/
+
+theorem parse_total_member (bs : Bytes) : IsObjOrErr (unmarshalMember bs) := by
+  unfold unmarshalMember
+  cases decMember bs <;> trivial
+
+theorem mapM'_mem {α β : Type} (f : α → Option β) : ∀ (l : List α) (r : List β), mapM' f l = some r →
+    ∀ b ∈ r, ∃ a, f a = some b := by
+  intro l
+  induction l with
+  | nil => intro r h b hb; simp [mapM'] at h; subst h; cases hb
+  | cons a l ih =>
+    intro r h b hb
+    simp only [mapM'] at h
+    cases hfa : f a with
+    | none => simp [hfa] at h
+    | some x =>
+      cases hl : mapM' f l with
+      | none => simp [hfa, hl] at h
+      | some xs =>
+        simp only [hfa, hl, Option.some.injEq] at h
+        subst h
+        simp only [List.mem_cons] at hb
+        rcases hb with rfl | hb
+        · exact ⟨a, hfa⟩
+        · exact ih xs hl b hb
+
+theorem pbToGroup_parsed_ok (p : PbGroup) (h : ∃ g, p.header = some g) : ∃ g, pbToGroup p = .ok g := by
+  obtain ⟨gh, hg⟩ := h
+  simp only [pbToGroup, hg, pbToGroupHeader, derefNat_safe 3 7 (by decide), derefStr_safe 3 8 (by decide),
+    derefNat_safe 4 6 (by decide)]
+  exact ⟨_, rfl⟩
+
+theorem pbToGroups_total (ps : List PbGroup) (h : ∀ p ∈ ps, ∃ g, p.header = some g) :
+    ∃ gs, pbToGroups ps = .ok gs := by
+  induction ps with
+  | nil => exact ⟨[], rfl⟩
+  | cons p ps ih =>
+    obtain ⟨g, hg⟩ := pbToGroup_parsed_ok p (h p (by simp))
+    obtain ⟨gs, hgs⟩ := ih (fun q hq => h q (by simp [hq]))
+    exact ⟨g :: gs, by simp only [pbToGroups, hg, hgs]⟩
+
+/-- `PbToGroups` after `proto.Unmarshal` of a `GroupSlice` never panics: every element carries its
+    required header, so the unchecked `PbToGroupHeader` is never entered with nil. -/
+theorem parse_total_groups (bs : Bytes) : IsObjOrErr (unmarshalGroups bs) := by
+  unfold unmarshalGroups
+  cases hd : decGroupSlice bs with
+  | none => trivial
+  | some ps =>
+    have hall : ∀ p ∈ ps, ∃ g, p.header = some g := by
+      intro p hp
+      unfold decGroupSlice at hd
+      cases hr : parseRaw bs with
+      | none => simp [hr] at hd
+      | some rs =>
+        simp only [hr] at hd
+        obtain ⟨c, hc⟩ := mapM'_mem decGroup _ ps hd p hp
+        exact decGroup_header_some c p hc
+    obtain ⟨gs, hgs⟩ := pbToGroups_total ps hall
+    simp only [hgs]
+    trivial
+
+/-- Member round trip: both required fields present and within the framing limits. -/
+theorem member_roundtrip (i k : Bytes) (hi : i.length < 2 ^ 64) (hk : k.length < 2 ^ 64) :
+    ∃ bs, marshalMember ⟨some i, some k⟩ = .ok bs ∧ unmarshalMember bs = .ok ⟨some i, some k⟩ := by
+  refine ⟨_, rfl, ?_⟩
+  have hwf : RawsWF (rawsOfMember (memberToPb ⟨some i, some k⟩)) := by
+    intro r hr
+    simp only [rawsOfMember, memberToPb, optLenR, List.cons_append, List.nil_append, List.mem_cons,
+      List.not_mem_nil, or_false] at hr
+    rcases hr with rfl | rfl
+    · exact ⟨by decide, by decide, hi⟩
+    · exact ⟨by decide, by decide, hk⟩
+  simp only [unmarshalMember, decMember, encMember, parseRaw_encRaws _ hwf]
+  simp [memberReq, hasLen, rawsOfMember, memberToPb, lastLen_append, pbToMember]
+
+example : unmarshalMember [0x0a, 0x01, 0x07] = .err := by decide
+
 end Rangers.Props.C09
